@@ -480,6 +480,25 @@ class Verifier:
                     out.append(f)
         return out
 
+    def class_level_mutable(self, cls, name):
+        """the class body binds `name` to a mutable container display / constructor call (not a dataclass field(...))"""
+        ci = self.repo.find_class(cls)
+        if ci is None:
+            return False
+        for st in ci.node.body:
+            val = None
+            if isinstance(st, ast.Assign) and any(isinstance(t, ast.Name) and t.id == name for t in st.targets):
+                val = st.value
+            if isinstance(st, ast.AnnAssign) and isinstance(st.target, ast.Name) and st.target.id == name:
+                val = st.value
+            if val is None:
+                continue
+            if isinstance(val, (ast.Dict, ast.List, ast.Set, ast.ListComp, ast.DictComp, ast.SetComp)):
+                return True
+            if isinstance(val, ast.Call) and isinstance(val.func, ast.Name) and val.func.id in ("dict", "list", "set", "defaultdict", "OrderedDict", "deque"):
+                return True
+        return False
+
     def class_level_name(self, I, cls, name):
         """a class attribute, method, property or dataclass field default: readable on an instance without __init__ having set it"""
         ci = self.repo.find_class(cls)
@@ -684,6 +703,12 @@ class Verifier:
                     bound = fld in rec.fields or self.class_level_name(I, rec.cls, fld)
                     ctx.oblige(I, "init-binds", fld, z3.BoolVal(bool(bound)), "" if bound else f"self.{fld} is not bound when __init__ returns",
                                text=f"hasattr(self, {fld!r})")
+                    if fld not in rec.fields and self.class_level_mutable(rec.cls, fld):
+                        # a mutable container at class level that the constructor does not replace is ONE object shared by every instance: what one
+                        # instance registers / records, all of them see -- the per-instance state every other contract of the class speaks about does not exist
+                        ctx.oblige(I, "post", f"instance-state-is-not-shared[{fld}]", z3.BoolVal(False),
+                                   f"self.{fld} is the class-level container, shared by all instances",
+                                   text=f"all(vars(c_).get({fld!r}) is not self.{fld} for c_ in type(self).__mro__)")
         else:
             fr.exits["raise"] += 1
             cls = exc.exc.cls + ("*" if exc.exc.arbitrary else "")
